@@ -59,7 +59,7 @@ def main():
     if not a.no_build:
         ok = common.coq_gate(rep, prop, cfg["cone"], cfg.get("extra_property_files", ()))
         if ok and a.tier == "thorough":
-            common.coqchk_property(rep, prop, cfg.get("extra_property_files", ()))
+            common.coqchk_property(rep, prop, cfg.get("extra_property_files", ()), cfg.get("coqchk_budget", 900))
     else:
         rep.coq = {"obligations": common.count_statements(cfg["cone"]), "discharged": 0}
     drv = None
